@@ -71,6 +71,7 @@ var (
 	c33KeyC, _ = crypto.HexToECDSA("49a7b37aa6f6645917e7b807e9d1c00d4fa71f18343b0d4122a4d2df64dd6fee")
 	c33KeyP, _ = crypto.HexToECDSA("0c06818f82e04c564290b32ab86b25676731fc34e9a546108bf109194c8e3aae")
 	c33KeyE, _ = crypto.HexToECDSA("1111111111111111111111111111111111111111111111111111111111111111")
+	c33KeyF, _ = crypto.HexToECDSA("3333333333333333333333333333333333333333333333333333333333333333") // authority that is already delegated (EIP-7702) in genesis
 
 	c33CTR   = common.HexToAddress("0xc700000000000000000000000000000000000c01") // counter: slot0 += calldata word, logs old value
 	c33OBS   = common.HexToAddress("0x0b50000000000000000000000000000000000b02") // observer: logs what it sees of everybody else
@@ -83,6 +84,7 @@ var (
 	c33CB    = common.HexToAddress("0xcb00000000000000000000000000000000000c09") // fee recipient
 	c33W     = common.HexToAddress("0x3300000000000000000000000000000000003310") // withdrawal recipient (absent)
 	c33Extra = common.HexToAddress("0x9900000000000000000000000000000000009911") // never touched: "extra account" edit
+	c33DLG2  = common.HexToAddress("0xd200000000000000000000000000000000000d13") // second delegation target (adds twice the calldata word)
 	c33BH    = common.HexToAddress("0xb100000000000000000000000000000000000b12") // stores and logs BLOCKHASH of ancestors N-1, N-3, N-6, N-8 and of N itself
 )
 
@@ -111,6 +113,7 @@ const (
 	c33C
 	c33P
 	c33E
+	c33F
 )
 
 type c33TxSpec struct {
@@ -119,6 +122,9 @@ type c33TxSpec struct {
 	needs  string // name of the entry that must precede this one in the block ("" = always valid)
 	to     common.Address
 	make   func(w *c33World, nonce uint64) *types.Transaction
+	// makeAuth, if set, replaces make: authNonce(i) returns the nonce the next authorization of
+	// authority w.keys[i] must carry at this position of the block (and counts it)
+	makeAuth func(w *c33World, nonce uint64, authNonce func(authority int) uint64) *types.Transaction
 }
 
 func c33Word(v int64) []byte {
@@ -178,7 +184,7 @@ func c33NewWorld() *c33World {
 	bh.Push(32 * len(c33BHDepths)).Push(0).Op(vm.LOG0, vm.STOP)
 
 	keyA, _ := crypto.HexToECDSA("b71c71a67e1177ad4e901695e1b4b9ee17ae16c6668d313eac2f96dbcda3f291")
-	w.keys = []*ecdsa.PrivateKey{keyA, c33KeyB, c33KeyC, c33KeyP, c33KeyE}
+	w.keys = []*ecdsa.PrivateKey{keyA, c33KeyB, c33KeyC, c33KeyP, c33KeyE, c33KeyF}
 	for _, k := range w.keys {
 		w.addrs = append(w.addrs, crypto.PubkeyToAddress(k.PublicKey))
 	}
@@ -198,6 +204,13 @@ func c33NewWorld() *c33World {
 	obs.Push(0).Op(vm.MLOAD).Push(0).Op(vm.SSTORE)
 	obs.Push(320).Push(0).Op(vm.LOG0, vm.STOP)
 
+	// DLG2: v = SLOAD(0); SSTORE(0, v + 2*calldata[0:32]); SLOAD(7); LOG0(v)
+	dlg2p := program.New()
+	dlg2p.Push(0).Op(vm.SLOAD, vm.DUP1).Push(0).Op(vm.MSTORE)
+	dlg2p.Push(0).Op(vm.CALLDATALOAD, vm.DUP1, vm.ADD, vm.ADD).Push(0).Op(vm.SSTORE)
+	dlg2p.Push(7).Op(vm.SLOAD, vm.POP)
+	dlg2p.Push(32).Push(0).Op(vm.LOG0, vm.STOP)
+	dlg2 := dlg2p.Bytes()
 	rich := newGwei(1_000_000_000)
 	w.env = newBALTestEnv(types.GenesisAlloc{
 		w.addrs[c33B]: {Balance: rich},
@@ -210,6 +223,9 @@ func c33NewWorld() *c33World {
 		c33DLG:        {Code: c33Adder(), Balance: common.Big0, Nonce: 1},
 		c33REV:        {Code: rev, Balance: common.Big0, Nonce: 1},
 		c33BH:         {Code: bh.Bytes(), Balance: common.Big0, Nonce: 1},
+		c33DLG2:       {Code: dlg2, Balance: common.Big0, Nonce: 1},
+		// F is an externally owned account whose delegation to DLG exists before the block
+		w.addrs[c33F]: {Code: types.AddressToDelegation(c33DLG), Balance: common.Big0},
 	})
 	w.env.gspec.GasLimit = 30_000_000
 	if w.addrs[c33A] != w.env.from {
@@ -252,6 +268,22 @@ func c33NewWorld() *c33World {
 			AuthList: []types.SetCodeAuthorization{auth},
 		})
 	}}
+	redelegate := func(name string, sender int, tip int64, targets ...common.Address) c33TxSpec {
+		return c33TxSpec{name: name, sender: sender, to: w.addrs[c33F], makeAuth: func(w *c33World, nonce uint64, authNonce func(int) uint64) *types.Transaction {
+			var auths []types.SetCodeAuthorization
+			for _, target := range targets {
+				auth, err := types.SignSetCode(w.keys[c33F], types.SetCodeAuthorization{ChainID: *uint256.MustFromBig(w.env.cfg.ChainID), Address: target, Nonce: authNonce(c33F)})
+				if err != nil {
+					panic(err)
+				}
+				auths = append(auths, auth)
+			}
+			return types.MustSignNewTx(w.keys[sender], w.env.signer, &types.SetCodeTx{
+				ChainID: uint256.MustFromBig(w.env.cfg.ChainID), Nonce: nonce, To: w.addrs[c33F], Value: new(uint256.Int), Gas: 3_000_000,
+				GasFeeCap: uint256.MustFromBig(newGwei(10)), GasTipCap: uint256.MustFromBig(newGwei(tip)), Data: c33Word(1), AuthList: auths,
+			})
+		}}
+	}
 	w.txs = []c33TxSpec{
 		call("INC_A", c33A, c33CTR, 0, c33Word(1)),
 		call("DEC_B", c33B, c33CTR, 0, c33Word(-1)),
@@ -275,6 +307,12 @@ func c33NewWorld() *c33World {
 		call("PAYCB_C", c33C, c33CB, 999, nil),
 		call("REV_C", c33C, c33REV, 0, nil),
 		call("BH_C", c33C, c33BH, 0, c33Word(0x30)),
+		// an authority that is delegated before the block: re-delegation to another target, clearing,
+		// two authorizations in one transaction (away and back to the old target), and a plain call of it
+		redelegate("REDELEG_F_B", c33B, 3, c33DLG2),
+		redelegate("CLEAR_F_C", c33C, 4, common.Address{}),
+		redelegate("REDELEG_F_TWICE_A", c33A, 5, c33DLG2, c33DLG),
+		call("CALLF_A", c33A, w.addrs[c33F], 0, c33Word(1)),
 	}
 	// the ancestors: empty blocks, generated once
 	_, w.prefix, _ = GenerateChainWithGenesis(w.env.gspec, w.engine, c33Ancestors, func(int, *BlockGen) {})
@@ -316,11 +354,16 @@ func (w *c33World) feasible(sel []int) bool {
 func (w *c33World) build(c *c33Chain, sel []int) (b *c33Block, err error) {
 	b = &c33Block{sel: sel}
 	nonces := map[int]uint64{}
+	authNonces := map[int]uint64{}
 	var txs []*types.Transaction
 	for _, s := range sel {
 		spec := w.txs[s]
 		b.names = append(b.names, spec.name)
-		txs = append(txs, spec.make(w, nonces[spec.sender]))
+		if spec.makeAuth != nil {
+			txs = append(txs, spec.makeAuth(w, nonces[spec.sender], func(a int) uint64 { n := authNonces[a]; authNonces[a]++; return n }))
+		} else {
+			txs = append(txs, spec.make(w, nonces[spec.sender]))
+		}
 		nonces[spec.sender]++
 	}
 	var (
@@ -1293,6 +1336,17 @@ func TestVerif_C33(t *testing.T) {
 				if err := w.observeBH(r, b); err != nil {
 					r.HarnessError(fmt.Sprintf("c33: %v: %v", b.names, err))
 				}
+				// how the pre-delegated authority's code changes in this block (none / one / several entries)
+				for _, a := range c33Decode(b.balEnc) {
+					if a.Address == w.addrs[c33F] && len(a.Codes) > 0 {
+						last := a.Codes[len(a.Codes)-1].Code
+						kind := "re-delegated"
+						if len(last) == 0 {
+							kind = "cleared"
+						}
+						r.Outcome(fmt.Sprintf("observed:pre-delegated-authority:%d-code-changes:finally-%s", len(a.Codes), kind))
+					}
+				}
 				if len(b.ref.res.Requests) > 0 {
 					r.Outcome("built:with-requests")
 				}
@@ -1575,6 +1629,9 @@ func TestVerif_C33_race(t *testing.T) {
 						n := reps
 						if rank(it) == 0 {
 							n = repsDense
+							if len(it.b.sel) == 3 {
+								n = (repsDense*2 + 4) / 5 // same-account triples: 40% of the dense repetitions
+							}
 						}
 						r.Case(desc, func() error {
 							for rep := 0; rep < n; rep++ {
